@@ -136,7 +136,18 @@ def forbidden_scan():
     return hits
 
 
+# property files that belong to a property besides Props/<prop>.lean
+EXTRA_PROP_FILES = {"C06": ["C06Index"], "C02": ["C02Builder"]}
+
+
 def prop_theorems(prop):
+    out = _prop_theorems_of(prop)
+    for extra in EXTRA_PROP_FILES.get(prop, []):
+        out += _prop_theorems_of(extra)
+    return out
+
+
+def _prop_theorems_of(prop):
     p = os.path.join(LEAN, "TgModel", "Props", prop + ".lean")
     with open(p, encoding="utf-8") as f:
         src = strip_lean_comments(f.read())
@@ -160,7 +171,8 @@ def proof_stage(prop):
     thms = prop_theorems(prop)
     res["obligations"] = len(thms)
     mod = "TgModel.Props." + prop
-    ok, out = build_lean([mod])
+    mods = [mod] + ["TgModel.Props." + e for e in EXTRA_PROP_FILES.get(prop, [])]
+    ok, out = build_lean(mods)
     if not ok:
         errs = [l for l in out.splitlines() if "error" in l.lower()]
         res["detail"] = "lake build %s failed: %s" % (mod, " | ".join(errs[:6]))
@@ -170,7 +182,8 @@ def proof_stage(prop):
     os.makedirs(os.path.join(BUILD, "audit"), exist_ok=True)
     af = os.path.join(BUILD, "audit", prop + ".lean")
     with open(af, "w") as f:
-        f.write("import %s\n" % mod)
+        for m_ in mods:
+            f.write("import %s\n" % m_)
         for t in thms:
             f.write("#print axioms %s\n" % t)
     with flock("lake"):
